@@ -95,7 +95,7 @@ impl SonicKZG10 {
             match randomizer { Some(r) => f_mul(a, r@), None => a } }),   // name=sonic.accumulate.adjusted_witness_carries_values_and_point props=C10,C02
         final(sponge).st@ == sp_iter(old(sponge).st@, 1 + min(commitments@.len(), values@.len())),   // name=sonic.accumulate.squeeze_schedule props=C11
 //@body
-//@rw * /\*combined_comms\.entry\(degree_bound\)\.or_insert\(E::G1::zero\(\)\) \+= &comm_with_challenge;/ => btree_entry_add_g1(combined_comms, degree_bound, &comm_with_challenge);
+//@rw * /\*combined_comms\.entry\(([^)]*)\)\.or_insert\(E::G1::zero\(\)\) \+= &comm_with_challenge;/ => btree_entry_add_g1(combined_comms, \1, &comm_with_challenge);
 //@after start
         let ghost rz: Option<FS> = match randomizer { Some(r) => Some(r@), None => None };
 //@loop 1 kw=for name=it
@@ -109,7 +109,7 @@ impl SonicKZG10 {
                     f_add(if old(combined_comms)@.dom().contains(d) { old(combined_comms)@[d]@ } else { f_zero() }, sonic_bucket(commitments@, old(sponge).st@, rz, d, it.index@ as nat)),
 //@at /for \(labeled_comm, value\) in commitments\.into_iter\(\)\.zip\(values\) \{/
             proof { reveal_with_fuel(sp_iter, 3); broadcast use ax_add_assoc, ax_add_zero, ax_add_comm; }
-//@before /\*combined_comms\.entry\(degree_bound\)/
+//@before /\*combined_comms\.entry\(/
             proof {
                 let k = it.index@ as nat;
                 if !sonic_has_bound(commitments@, degree_bound, k) { lemma_sonic_bucket_zero(commitments@, old(sponge).st@, rz, degree_bound, k); }
